@@ -1474,7 +1474,10 @@ impl RegComp {
                         shadow.do_hktick(&env, t, &[], false, &mut mon)
                     })) {
                         Ok(Some((_, eff))) => eff,
-                        _ => Vec::new(),
+                        other => {
+                            eprintln!("shadow nattick failed at t={t}: panicked={} ops so far={:?}", other.is_err(), ops);
+                            Vec::new()
+                        }
                     };
                     ops.push(format!("nattick {t} {}", join_list(&eff)));
                     continue;
@@ -1560,45 +1563,50 @@ fn letter3(l: usize, pos: usize, t: &mut u64) -> String {
     }
 }
 
-/// (depth over 2 uplinks [x2: with / without start-up probing], depth over 3 uplinks or 0)
-fn exhaustive_plan(tier: Tier) -> (u32, u32) {
+/// Depths: (2 uplinks, passes mirrored) x2 variants, (2 uplinks, real shell functions) x2 variants,
+/// (3 uplinks, mirrored; 0 = family absent).
+fn exhaustive_plan(tier: Tier) -> (u32, u32, u32) {
     match tier {
-        Tier::Quick => (4, 0),
-        Tier::Thorough => (5, 4),
+        Tier::Quick => (4, 4, 0),
+        Tier::Thorough => (5, 4, 4),
     }
 }
 
 fn exhaustive_count(tier: Tier) -> usize {
-    let (d2, d3) = exhaustive_plan(tier);
-    4 * LETTERS2.pow(d2) + if d3 > 0 { LETTERS3.pow(d3) } else { 0 }
+    let (dm, dr, d3) = exhaustive_plan(tier);
+    2 * LETTERS2.pow(dm) + 2 * LETTERS2.pow(dr) + if d3 > 0 { LETTERS3.pow(d3) } else { 0 }
 }
 
 /// The `idx`-th word of the exhaustive families (every word of the stated depth exactly once).
 fn exhaustive_case(tier: Tier, idx: usize) -> Vec<String> {
-    let (d2, d3) = exhaustive_plan(tier);
-    let n2 = LETTERS2.pow(d2);
+    let (dm, dr, d3) = exhaustive_plan(tier);
+    let nm = LETTERS2.pow(dm);
+    let nr = LETTERS2.pow(dr);
     let mut t: u64 = 200_000;
     let mut ops = Vec::new();
-    if idx < 4 * n2 {
-        // variant: bit 0 = start-up probing phase, bit 1 = passes through the REAL handle_housekeeping
-        let variant = idx / n2;
-        let probing = variant & 1 == 1;
-        let tick = if variant & 2 == 2 { "hktick" } else { "tick" };
-        let mut w = idx % n2;
+    if idx < 2 * nm + 2 * nr {
+        // variant: start-up probing phase or not x passes mirrored / through the REAL shell functions
+        let (probing, real, depth, mut w) = if idx < 2 * nm {
+            (idx >= nm, false, dm, idx % nm)
+        } else {
+            let j = idx - 2 * nm;
+            (j >= nr, true, dr, j % nr)
+        };
+        let tick = if real { "hktick" } else { "tick" };
         ops.push("init 2 11".to_string());
         if probing {
             ops.push(format!("probe_start {t}"));
         }
-        for pos in 0..d2 as usize {
+        for pos in 0..depth as usize {
             let l = letter2(w % LETTERS2, pos, &mut t, tick);
             ops.push(match l.strip_prefix("pkt ") {
-                Some(rest) if tick == "hktick" => format!("hkpkt {rest}"),
+                Some(rest) if real => format!("hkpkt {rest}"),
                 _ => l,
             });
             w /= LETTERS2;
         }
     } else {
-        let mut w = idx - 4 * n2;
+        let mut w = idx - 2 * nm - 2 * nr;
         ops.push("init 3 12".to_string());
         for pos in 0..d3 as usize {
             ops.push(letter3(w % LETTERS3, pos, &mut t));
@@ -1656,9 +1664,9 @@ impl Component for RegComp {
     fn rule(&self) -> &'static str {
         "first, exhaustively: every word of depth 4 (quick) / 5 (thorough) over 12 event letters on 2 uplinks \
          (REG_NGP/full REG2/REG3/REG_ERR on each uplink, short REG2, tick now, tick +4000 ms, tick +1000 ms with the \
-         reconnect branch of uplink 0), each in four variants: without / with a start-up probing phase x housekeeping \
-         pass mirrored call by call / run through the REAL handle_housekeeping over loopback sockets (4*12^4 = 82944 / \
-         4*12^5 = 995328 cases), thorough also every word of depth 4 over 16 letters on 3 uplinks (65536 cases); then \
+         reconnect branch of uplink 0), each without / with a start-up probing phase (2*12^4 = 41472 / 2*12^5 = 497664 \
+         cases), and every word of depth 4 again with packets and passes run through the REAL handle_uplink_packet / \
+         handle_housekeeping over loopback sockets (2*12^4 = 41472 cases); thorough also every word of depth 4 over 16 letters on 3 uplinks (65536 cases); then \
          state-aware random walk over 1-4 (mostly 2-3) uplinks, 5-30 events per case, 40% with a start-up probing \
          phase, 40% with every packet through the REAL handle_uplink_packet (op hkpkt) and every housekeeping pass \
          through the REAL handle_housekeeping over loopback sockets - half of those with link state forced so \
